@@ -191,9 +191,10 @@ def list_eq(a, b):
     return b_and(*[_eq(x, y) for x, y in zip(a, b)])
 
 
-def adapt(kind, ncomp, explicit, has_type, twin_first=False):
+def adapt(kind, ncomp, explicit, has_type, twin_first=False, second=False):
     """kind: signature kind; ncomp: 0 (no api_version in meta) | 1..3; explicit: 'none' | 'same' | 'other1'..'other3';
-    has_type: whether meta carries a type."""
+    has_type: whether meta carries a type.  second: another instance is started from the same sim_config entry (with the
+    same announcement) first; its fate is decided by the plain jobs, the instance under test is the second one."""
     cls, compliant = KINDS[kind]
 
     def h(eng):
@@ -211,8 +212,8 @@ def adapt(kind, ncomp, explicit, has_type, twin_first=False):
         elif explicit.startswith('other'):
             ev, exp_comps = mk_version(eng, 'x', int(explicit[5:]))
             cfg['api_version'] = ev
-        fp = [kind, ncomp, explicit, has_type, twin_first]
-        desc = f'twin_first={twin_first} signatures={kind} version components={ncomp} configured api_version={explicit} type in meta={has_type}'
+        fp = [kind, ncomp, explicit, has_type, twin_first] + (['second'] if second else [])
+        desc = f'twin_first={twin_first} second_from_entry={second} signatures={kind} version components={ncomp} configured api_version={explicit} type in meta={has_type}'
         # ---- oracle
         too_new = lex_ge(eff, [4])
         claims_v3 = lex_ge(eff, [3])
@@ -235,6 +236,11 @@ def adapt(kind, ncomp, explicit, has_type, twin_first=False):
                 if twin_first:
                     # a current-version simulator (class of the same name) is started before the one under test
                     p = w.start('T', sim_id='P', version='3.0', typ='time-based')
+                if second:
+                    try:
+                        w.start('X', sim_id='X0', **kw)
+                    except (ScenarioError, TypeError):
+                        pass
                 try:
                     x = w.start('X', sim_id='X', **kw)
                 except TypeError as e:
@@ -299,6 +305,10 @@ def jobs(tier):
                 for has_type in (True, False):
                     out.append({'id': f'adapt|{kind}|n{ncomp}|{explicit}|type={int(has_type)}', 'harness': 'vk.kernels.c15:adapt',
                                 'params': {'kind': kind, 'ncomp': ncomp, 'explicit': explicit, 'has_type': has_type}, 'budget_s': 200})
+                    if explicit != 'none' and has_type and (not q or explicit != 'other2'):
+                        out.append({'id': f'adapt|{kind}|n{ncomp}|{explicit}|type={int(has_type)}|second', 'harness': 'vk.kernels.c15:adapt',
+                                    'params': {'kind': kind, 'ncomp': ncomp, 'explicit': explicit, 'has_type': has_type, 'second': True},
+                                    'budget_s': 200})
                     if explicit == 'none' and has_type:
                         out.append({'id': f'adapt|{kind}|n{ncomp}|{explicit}|type={int(has_type)}|twin_first', 'harness': 'vk.kernels.c15:adapt',
                                     'params': {'kind': kind, 'ncomp': ncomp, 'explicit': explicit, 'has_type': has_type, 'twin_first': True},
